@@ -44,9 +44,9 @@ G == C01G
 
 ASSUME InitRegisters
 ASSUME SetContext(CtxForms)
-ASSUME TLCSet(3, G)
-ASSUME TLCSet(4, CountTab(G, MaxSize, <<>>))
-ASSUME TLCSet(5, [k \in 1..Len(Multi) |-> ReadAll(Multi[k])])
+ASSUME TLCSet(3, Norm(G))
+ASSUME TLCSet(4, Norm(CountTab(G, MaxSize, <<>>)))
+ASSUME TLCSet(5, Norm([k \in 1..Len(Multi) |-> ReadAll(Multi[k])]))
 ASSUME PrintT("CTX " \o ToJson([name |-> "c01", forms |-> CtxForms]))
 
 \* token texts of a form
